@@ -332,17 +332,18 @@ def tail_fp_job(n, model='fp32'):
     return path
 
 
-def sweep_equiv_job(n=2):
+def sweep_equiv_job(n=2, pattern=None):
     """compiled (typed Cython tree) and pure-Python implementation give the same (T, pi) after one real sweep"""
     def path(ctx):
         ctx.resolve_masks = True
         ctx.abstract_log = True
         ctx.purify_div = True
         b = loader.load('enspara.msm.builders')
-        C = [[core.fresh_real('c') for _ in range(n)] for _ in range(n)]
+        C = [[core.fresh_real('c') if (pattern is None or pattern[i][j]) else 0.0 for j in range(n)] for i in range(n)]
         for row in C:
             for x in row:
-                ctx.add(core.to_z3_real(x) > 0)
+                if isinstance(x, SVal):
+                    ctx.add(core.to_z3_real(x) > 0)
         K = kernels.KModule('libmsm')
         exc = None
         try:
@@ -352,7 +353,7 @@ def sweep_equiv_job(n=2):
             exc = e
 
         def witness(model):
-            Cc = [[float(ev(model, x)) for x in row] for row in C]
+            Cc = [[float(ev(model, x)) if isinstance(x, SVal) else float(x) for x in row] for row in C]
             out = {'inputs': {'C': Cc, 'max_iter': 1, 'tol': 'inf'}, 'skip_compare': True}
             import warnings
             try:
@@ -460,8 +461,8 @@ def block_equiv_job(which, n, i=0, j=1):
             with core.concrete_mode(), warnings.catch_warnings():
                 warnings.simplefilter('ignore')
                 for Cc in cands:
-                    if not (Cc.sum(axis=1) > 0).all():
-                        continue
+                    if not (Cc > 0).all():
+                        continue        # whole-function replays only on strongly connected (here: positive) counts
                     try:
                         Ta, pa = b._prinz_mle_py(Cc.copy(), tol=float('inf'), max_iter=1)
                         Tb, pb = mod._mle_prinz_dense(Cc.copy(), float('inf'), 1)
@@ -480,6 +481,127 @@ def block_equiv_job(which, n, i=0, j=1):
         eq = [p == q for p, q in zip(list(cells(Xp)) + list(cells(Xrp)), list(cells(Xb)) + list(cells(Xrb)))]
         obs = [('compiled-block-equals-python-block(X, X_rs)', conj(eq))] + kernels.ob_list(K.it, ('bounds',))
         return PathOut(obs, {}, witness, desc='%s block equivalence n=%d' % (which, n))
+    return path
+
+
+def py_sweep_fn():
+    """prelude + ONE pass of the outer iteration loop of the current _prinz_mle_py, with the state (X, X_rs) overridden
+    after the prelude: works for any source structure that has a single outer iteration loop"""
+    if 'sweep' in _BLOCKS:
+        return _BLOCKS['sweep']
+    b = loader.load('enspara.msm.builders')
+    path = os.path.join(loader.REPO, 'enspara/msm/builders.py')
+    tree = ast.parse(open(path).read())
+    fn = [n for n in tree.body if isinstance(n, ast.FunctionDef) and n.name == '_prinz_mle_py'][0]
+    outer = [n for n in fn.body if isinstance(n, ast.For)]
+    if len(outer) != 1:
+        raise core.Unsupported('_prinz_mle_py: expected one outer iteration loop')
+    idx = fn.body.index(outer[0])
+    prelude = [n for n in fn.body[:idx] if not (isinstance(n, ast.Expr) and isinstance(getattr(n, 'value', None), ast.Constant))]
+    loop = ast.For(target=outer[0].target, iter=ast.parse('range(1)').body[0].value, body=outer[0].body, orelse=[])
+    override = ast.parse('X = __X\nX_rs = __X_rs').body
+    ret = ast.parse('return (X, X_rs)').body[0]
+    f = ast.FunctionDef(name='sweep_once', args=ast.arguments(posonlyargs=[], args=[ast.arg(arg=a) for a in ('C', '__X', '__X_rs', 'tol', 'max_iter')],
+                                                                kwonlyargs=[], kw_defaults=[], defaults=[]),
+                        body=prelude + override + [loop, ret], decorator_list=[], type_params=[])
+    mod = ast.Module(body=[f], type_ignores=[])
+    ast.fix_missing_locations(mod)
+    ns = {}
+    exec(compile(mod, path + ':<one sweep>', 'exec'), vars(b), ns)
+    _BLOCKS['sweep'] = ns['sweep_once']
+    return ns['sweep_once']
+
+
+def pyx_sweep(K, fn, C, X, X_rs):
+    """prelude + one pass of the outer loop of _mle_prinz_dense (typed tree) with the state overridden after the prelude"""
+    stats = list(fn.body.stats)
+    env = {'$opts': K.it.directives(fn), 'C': C, 'tol': float('inf'), 'max_iter': 1}
+    from Cython.Compiler import Visitor
+
+    def has_outer_loop(node):
+        found = []
+
+        class G(Visitor.TreeVisitor):
+            def visit_Node(self, n):
+                self.visitchildren(n)
+
+            def visit_ForFromStatNode(self, n):
+                if str(getattr(n.target, 'name', '')) == 'n_iter':
+                    found.append(n)
+                self.visitchildren(n)
+        G().visit(node)
+        return bool(found)
+    loop = None
+    for st in stats:
+        if has_outer_loop(st):
+            loop = st
+            break
+        K.it.ex(st, env)
+    if loop is None:
+        raise core.Unsupported('_mle_prinz_dense: outer loop not found')
+    env['X'], env['X_rs'] = X, X_rs
+    K.it.ex(loop, env)
+    return env['X'], env['X_rs']
+
+
+def sweep_state_job(n, pattern=None):
+    """one full sweep of both implementations from the same ARBITRARY invariant state gives the same state"""
+    def path(ctx):
+        ctx.resolve_masks = True
+        ctx.abstract_log = True
+        sw = py_sweep_fn()
+        K = kernels.KModule('libmsm')
+        fn = K.fns['_mle_prinz_dense']
+        C, X, X_rs, C_rs = sym_state(ctx, n)
+        if pattern is not None:
+            for i in range(n):
+                for j in range(n):
+                    if not pattern[i][j]:
+                        ctx.add(core.to_z3_real(C[i][j]) == 0)
+                    else:
+                        ctx.add(core.to_z3_real(C[i][j]) > 0)
+        exc = None
+        try:
+            Xp, Xrp = sw(funcs.np_array(C, dtype=float), funcs.np_array(X, dtype=float), funcs.np_array(X_rs, dtype=float),
+                         float('inf'), 1)
+            Xc, Xrc = pyx_sweep(K, fn, funcs.np_array(C, dtype=float), funcs.np_array(X, dtype=float),
+                                funcs.np_array(X_rs, dtype=float))
+        except (Exception, kernels.KernelAssertion) as e:
+            exc = e
+
+        def witness(model):
+            """replay through the real public implementations on strongly connected matrices with one-directional zeros"""
+            import warnings
+            b = loader.load('enspara.msm.builders')
+            out = {'inputs': None, 'out': None, 'violated': [], 'skip_compare': True}
+            try:
+                mod = kernels.build_ext('libmsm')
+            except Exception as e:
+                return dict(out, violated=None, exception='build failed: %r' % e)
+            cands = [np.array([[10., 0, 3], [4, 8, 0], [0, 5, 12]]), np.array([[2., 0, 0, 3], [4, 1, 0, 0], [0, 5, 2, 0], [0, 0, 6, 1]]),
+                     np.array([[10., 0, 3, 1], [4, 8, 2, 0], [1, 5, 12, 2], [2, 3, 1, 6]]), np.arange(1, 10, dtype=float).reshape(3, 3)]
+            with core.concrete_mode(), warnings.catch_warnings():
+                warnings.simplefilter('ignore')
+                for Cc in cands:
+                    for kw in (dict(tol=float('inf'), max_iter=1), dict()):
+                        try:
+                            Ta, pa = b._prinz_mle_py(Cc.copy(), **kw)
+                            Tb, pb = mod._mle_prinz_dense(Cc.copy(), **kw)
+                        except Exception as e:
+                            return dict(out, inputs={'C': Cc.tolist()}, exception=repr(e), violated=['raises ' + type(e).__name__],
+                                        signature='exception:' + type(e).__name__)
+                        if not np.allclose(Ta, Tb, rtol=1e-6, atol=1e-9):
+                            return dict(out, inputs={'C': Cc.tolist(), 'kwargs': {k: str(v) for k, v in kw.items()}},
+                                        out={'T_py': Ta.tolist(), 'T_pyx': np.asarray(Tb).tolist()},
+                                        violated=['compiled-and-python-implementations-disagree'],
+                                        signature='compiled-and-python-implementations-disagree')
+            return out
+        if exc is not None:
+            return PathOut([('no-exception-in-either-implementation', False)], {}, witness, exc=type(exc).__name__,
+                           desc='raises %s: %s' % (type(exc).__name__, str(exc)[:100]))
+        eq = [p == q for p, q in zip(list(cells(Xp)) + list(cells(Xrp)), list(cells(Xc)) + list(cells(Xrc)))]
+        return PathOut([('one-sweep-of-compiled-equals-one-sweep-of-python(X, X_rs)', conj(eq))], {}, witness,
+                       desc='sweep equivalence from an arbitrary state n=%d pattern=%s' % (n, pattern))
     return path
 
 
@@ -502,6 +624,8 @@ def jobs(tier):
         add('block_equiv_job', 'compiled-vs-python-diag[n=%d]' % n, which='diag', n=n, i=n - 1)
         add('block_equiv_job', 'compiled-vs-python-pair[n=%d]' % n, which='pair', n=n, i=0, j=n - 1)
     add('sweep_equiv_job', 'compiled-vs-python-whole-function[n=1]', n=1)
+    add('sweep_state_job', 'compiled-vs-python-sweep-from-arbitrary-state[n=2, C01=0]', n=2, pattern=[[1, 0], [1, 1]])
+    add('sweep_state_job', 'compiled-vs-python-sweep-from-arbitrary-state[n=2, C10=0]', n=2, pattern=[[1, 1], [0, 1]])
     if not q:
         add('tail_fp_job', 'final-block-FP32[n=2]', n=2, model='fp32')
         add('sweep_equiv_job', 'compiled-vs-python-sweep[n=2]', n=2)
